@@ -87,6 +87,12 @@ fn main() {
                 let mut l = out.lock();
                 let _ = writeln!(l, "{}", serde_json::json!({"t": "done", "i": i, "out": r}));
                 let _ = l.flush();
+                drop(l);
+                if runner::ABANDONED.load(std::sync::atomic::Ordering::SeqCst) {
+                    // simulated threads of that run are parked for good: be replaced
+                    let _ = std::fs::remove_dir_all(runner::base_dir());
+                    unsafe { libc::_exit(72) }
+                }
                 i += step;
             }
             let _ = std::fs::remove_dir_all(runner::base_dir());
@@ -101,6 +107,10 @@ fn main() {
             let r = runner::run_scenario(&scn);
             println!("{}", serde_json::json!({"t": "done", "i": 0, "out": r}));
             let _ = std::fs::remove_dir_all(runner::base_dir());
+            if runner::ABANDONED.load(std::sync::atomic::Ordering::SeqCst) {
+                let _ = std::io::stdout().flush();
+                unsafe { libc::_exit(0) }
+            }
         }
         "hashorder" => {
             // diagnostic: is std's HashSet iteration order inside a simulation a function of the seed?
